@@ -706,7 +706,8 @@ def _r7_switch_histories(ctx):
         from ..alg import Interp
         dmap = {"float": Obj(f"float{recv.attrs['precision'][:2]}"), "int": Obj(f"int{recv.attrs['precision'][:2]}"), "bool": Obj("bool")}
         it = Interp({"self": recv, "torch": Obj("torch"), "config": Obj("config"), "tf": Obj("tf"), "np": Obj("np")}, {"precision": recv.attrs["precision"], "name": recv.attrs["name"], "dtypemap": dmap}, {},
-                    cls_name=cname, externals={"__strict__": True, "update": cfg_update, "set_default_dtype": set_default_dtype, "set_floatx": lambda a2, k2: modes.__setitem__("tf_floatx", a2[0])})
+                    cls_name=cname, externals={"__strict__": True, "update": cfg_update, "set_default_dtype": set_default_dtype, "set_floatx": lambda a2, k2: modes.__setitem__("tf_floatx", a2[0]),
+                                                  **{nm_: (lambda a2, k2, nm_=nm_: modes.__setitem__(nm_, a2[0] if a2 else None)) for nm_ in ("set_flush_denormal", "set_float32_matmul_precision", "enable_tensor_float_32_execution", "set_num_threads", "manual_seed")}})
         it.run(A.strip_docstring(m.node.body))
         return None
 
@@ -765,8 +766,18 @@ def _r7_switch_histories(ctx):
         fired = [e_ for e_ in events_log if e_[0] == "tensorlib_changed"]
         should = prev != want
         final_modes = dict(modes)
+        # what the CURRENT backend's own setup establishes (run once more on top: a no-op when it already ran last)
+        try:
+            setup(cur, [], {})
+        except errs as e:
+            ctx.unrecognised(r7, sb, label, f"_setup not interpretable: {type(e).__name__}: {e}")
+            return
+        own_modes = dict(modes)
         if got != want:
             ctx.violated(r7, sb, label, f"the current backend after the call is {got}", expected=str(want), found=str(got))
+        elif own_modes != final_modes:
+            diff = sorted(k_ for k_ in own_modes if own_modes.get(k_) != final_modes.get(k_))
+            ctx.violated(r7, sb, label, f"after the call the process-wide setup `{diff[0]}` is {final_modes.get(diff[0])}, the backend now in force sets it to {own_modes.get(diff[0])}: the library-global setup was run for ANOTHER backend object (an earlier one, before the precision keyword re-created it) or not at all", expected=str({k_: own_modes[k_] for k_ in diff}), found=str({k_: final_modes.get(k_) for k_ in diff}))
         elif should and not fired:
             ctx.violated(r7, sb, label, f"the backend changed from {prev} to {want} and 'tensorlib_changed' is not triggered: every model, interpolator and viewer alive keeps tensors of the previous backend / precision", expected="one trigger", found="none")
         elif not should and fired:
